@@ -1188,6 +1188,65 @@ pub fn sweep_body(idx: u64, rng: &mut Rng) -> String {
 // ---------------------------------------------------------------------------------------------
 // the shared v1 workload
 
+// ---------------------------------------------------------------------------------------------
+// multi-byte characters across the offsets around the 107-byte limit
+
+const STRADDLE_HEADS: [&str; 6] = ["PROXY TCP4 ", "PROXY TCP6 ", "PROXY UNKNOWN ", "PROXY ", "PROXY TCP6 fe80::1%eth0 ", "proxy tcp6 "];
+const STRADDLE_CHARS: [&str; 3] = ["\u{e9}", "\u{20ac}", "\u{1f600}"];
+const STRADDLE_TOTALS: [usize; 5] = [108, 110, 124, 139, 200];
+
+pub fn straddle_count() -> u64 {
+    (STRADDLE_HEADS.len() * STRADDLE_CHARS.len() * 8 * STRADDLE_TOTALS.len() * 4) as u64
+}
+
+/// A long input that begins like a header and has one multi-byte character lying across one of
+/// the byte offsets 103..=110 (so that `&s[..n]` for n around the limit cuts it in the middle);
+/// without a CR, or with its first CR shortly before / right after / well after the character.
+pub fn straddle_case(mut idx: u64) -> Vec<u8> {
+    let mut take = |n: usize| {
+        let r = (idx % n as u64) as usize;
+        idx /= n as u64;
+        r
+    };
+    let head = STRADDLE_HEADS[take(STRADDLE_HEADS.len())];
+    let ch = STRADDLE_CHARS[take(STRADDLE_CHARS.len())];
+    let cut = 103 + take(8); // the offset that falls inside the character
+    let total = STRADDLE_TOTALS[take(STRADDLE_TOTALS.len())];
+    let cr = take(4);
+    let w = ch.len();
+    // the character starts 1 ..= w-1 bytes before `cut`
+    let start = cut - 1 - (idx as usize % (w - 1));
+    let mut v = head.as_bytes().to_vec();
+    let filler = b"1234:5678:9abc:def0 ";
+    let mut k = 0;
+    while v.len() < start {
+        v.push(filler[k % filler.len()]);
+        k += 1;
+    }
+    v.truncate(start);
+    v.extend_from_slice(ch.as_bytes());
+    match cr {
+        0 => {}
+        1 => {
+            // a CR a few bytes before the character (the line is closed, the character is payload)
+            if start > 20 {
+                v[start - 4] = b'\r';
+                v[start - 3] = b'\n';
+            }
+        }
+        2 => v.extend_from_slice(b"\r\n"),
+        _ => {}
+    }
+    while v.len() < total {
+        v.push(filler[k % filler.len()]);
+        k += 1;
+    }
+    if cr == 3 {
+        v.extend_from_slice(b"\r\n");
+    }
+    v
+}
+
 /// Streams of the general v1 workload; `unit` scales the random streams.
 pub fn v1_streams(tier: Tier, unit: u64) -> Vec<StreamSpec> {
     let u = unit;
@@ -1207,6 +1266,7 @@ pub fn v1_streams(tier: Tier, unit: u64) -> Vec<StreamSpec> {
         },
         exhaustive("v1-mbcr", if tier == Tier::Miri { 400 } else { mbcr_count() }),
         if tier == Tier::Miri { stream("v1-sweep-s", 200) } else { exhaustive("v1-sweep", sweep_count()) },
+        exhaustive("v1-straddle", if tier == Tier::Miri { 60 } else { straddle_count() }),
         // pairs of unrelated lines with equal fingerprints, each in both orders (spec::collide)
         exhaustive("v1-collide", if tier == Tier::Miri { 0 } else { 2 * crate::collide::v1_pairs().len() as u64 }),
     ]
@@ -1263,6 +1323,7 @@ pub fn v1_case(stream_name: &str, idx: u64, seed: u64) -> Vec<u8> {
         }
         "v1-mbcr" => mbcr(idx).into_bytes(),
         "v1-collide" => crate::collide::v1_case(idx),
+        "v1-straddle" => straddle_case(if crate::engine::small() { idx * 47 } else { idx }),
         "v1-sweep" | "v1-sweep-s" => {
             let i = if stream_name == "v1-sweep" { idx } else { rng.below(sweep_count()) };
             let fields = SWEEP_PORTS + SWEEP_OCTETS + SWEEP_GROUPS;
